@@ -136,6 +136,10 @@ def gen_histories(rng, alphabet, tier):
     base = alphabet if tier == "thorough" else alphabet[::3]
     for a, b in itertools.product(base, repeat=2):
         hist.append([("q",) + a + (False,), ("q",) + b + (False,)])
+    # every query of the alphabet at least once, whatever the tier and the seed (batched kinds are compared point by point with
+    # the same point evaluated alone)
+    for a in alphabet:
+        hist.append([("q",) + a + (True,), ("q",) + a + (False,)])
     n = 30 if tier == "quick" else 300
     for _ in range(n):
         h = []
